@@ -45,6 +45,11 @@ STRATA = {
     "adjacency": (1200, 25000),
     "large_ratio": (300, 10000),
 }
+# functions that must leave their arguments untouched (vf.core.PurityMonitor; '!' = the object itself is watched too)
+PURE = [
+    "biotite.structure.box:repeat_box_coord",
+    "biotite.structure.box:move_inside_box",
+]
 REQUIRED_ORACLES = [
     "get_atoms_exact", "mask_equals_index", "radii_array_exact", "single_query_exact",
     "cells_superset", "adjacency_equals_threshold", "adjacency_symmetric",
